@@ -35,6 +35,8 @@ type Program struct {
 
 	mu            sync.Mutex
 	retries       int
+	crossChecked  int
+	crossDisagree int
 	inconclusive  []string
 	initStores    map[*ssa.Package]map[*ssa.Global]bool
 	initSlices    map[*ssa.Global]*initSlice
